@@ -71,6 +71,7 @@ func runC10(c *Ctx) {
 	c.rule("flatten-flag-accumulates", "in the flatten unmangler the 'any child set' flag only grows inside the field loop: after a nested struct it is old || nested (the nested result is not discarded), after a leaf it becomes true exactly under a non-nil value; the parent pointer is installed exactly when the flag is set", 3)
 	c.rule("nonnil-preserved", "containers rebuilt on the way back are created with reflect.MakeSlice / MakeMap* (a non-nil, possibly empty, input stays non-nil) and reflect.Zero of a container type is returned only under a nil-ness test of the input", 3)
 	c.rule("zero-only-for-unset", "in the transform package reflect.Zero (the 'unset' value handed back to lower layers) is produced only under a true nil-ness test of the value it replaces (IsNil / IsZero / isNil / == nil / the all-fields-nil flag): an explicitly empty slice, map or struct is not reported as unset", 7)
+	c.rule("anon-struct-only", "(shared with C16) Mangle and Unmangle of the anonymous-flatten mangler agree that only pointers to structs are flattened", 3)
 	c.rule("anon-unset-total", "the anonymous-flatten unmangler clears its all-fields-nil flag for a value of a nil-able kind {Ptr, Slice, Map, Interface, Chan} only under a test that the value is not nil/zero", 1)
 	c.rule("either-or", "(shared with C14) AliasMangler.Unmangle: both-set error exactly when both copies are set; values returned from the scan were tested set", 3)
 	c.rule("nil-test-total", "(shared with C14) every 'is set' test in AliasMangler.Unmangle goes through one kind-total predicate", 2)
@@ -95,6 +96,7 @@ func runC10(c *Ctx) {
 	c10NonNil(c)
 	c10ZeroOnlyUnset(c)
 	c10AnonUnsetTotal(c)
+	c16AnonStructOnly(c, "anon-struct-only")
 	c14AliasUnmangle(c)
 	c10Unset(c)
 	_ = w
